@@ -367,6 +367,13 @@ def main():
         found = search_transfer_simplify(clause, budget, rng)
     elif fn in ("Engine.materialize", "Materialization.simplify"):
         found = search_materialize(clause, budget, rng)
+    elif key == "sql._engine:Engine.convert_predicate":
+        # the generated SQL against Python's own membership test, on a real SQLite database (replay/bounded_range_sql.py)
+        import runpy
+
+        sys.argv = ["bounded_range_sql.py", "7"]
+        runpy.run_path("/verif/replay/bounded_range_sql.py", run_name="__main__")
+        return
     elif key.startswith("iteration._engine:") and meth.startswith("convert_"):
         found = search_convert(fn, clause, budget, rng)
     elif meth == "columns_required" and key.startswith("_operations."):
